@@ -353,6 +353,11 @@ Section WithMatch.
 
   (* ---------- node/scan.go ---------- *)
 
+  (* parseScanArgs: cursor = args[0], taken literally: only the EMPTY cursor means "from the start"; there is no
+     sentinel such as redis' "0" (a cursor is the raw name of the last element returned, so any non-empty
+     sentinel would collide with an element of that name) *)
+  Definition parse_cursor (arg : bytes) : bytes := arg.
+
   (* parseScanArgs, after strconv.Atoi: count < 0 -> 0; count > MAX_BATCH_NUM -> MAX_BATCH_NUM *)
   Definition clamp_count (count : Z) : Z :=
     let c := if (count <? 0)%Z then 0%Z else count in
@@ -386,6 +391,7 @@ Section WithMatch.
   Definition key_scan_command (db : list bytes) (d : dtype) (reverse : bool) (cursor pat : bytes) (count0 : Z)
     : outcome page :=
     let count := clamp_count count0 in
+    let cursor := parse_cursor cursor in
     match extract_table cursor with
     | None => Err
     | Some (table, _) =>
@@ -415,7 +421,7 @@ Section WithMatch.
   Definition coll_scan_command (db : list bytes) (dt : N) (table verkey : bytes) (exists_ : bool)
              (reverse : bool) (cursor pat : bytes) (count0 : Z) : outcome page :=
     let count := clamp_count count0 in
-    match coll_scan_generic db dt table verkey exists_ cursor count pat reverse with
+    match coll_scan_generic db dt table verkey exists_ (parse_cursor cursor) count pat reverse with
     | Err => Err
     | Panic => Panic
     | Ok ay =>
